@@ -554,10 +554,17 @@ SCALAR_LIB = {"numpy.sum", "numpy.sqrt", "numpy.max", "numpy.min", "numpy.linalg
 def _value_kind(eng, fi, cfg, at, val, vec_positions):
     if isinstance(val, ast.Constant):
         return "scalar"
+    if isinstance(val, ast.IfExp):
+        ks = {_value_kind(eng, fi, cfg, at, val.body, vec_positions), _value_kind(eng, fi, cfg, at, val.orelse, vec_positions)}
+        return "vector" if "vector" in ks else None if None in ks else "scalar"
+    if isinstance(val, ast.Call) and isinstance(val.func, ast.Attribute) and val.func.attr == "copy" and not val.args:
+        return _value_kind(eng, fi, cfg, at, val.func.value, vec_positions)
     if isinstance(val, ast.Call):
         ci = eng.res.calls.get(id(val))
         if ci is None:
             return None
+        if any(t.fid in ("model.Model.xopt", "model.Model.ropt", "model.Model.xpt", "model.Model.as_absolute_coordinates", "model.Model.gopt") for t in ci.targets):
+            return "vector"
         if ci.kind == "BUILTIN" and ci.libname in ("len", "int", "float", "str", "bool", "max", "min", "abs"):
             return "scalar"
         if ci.kind == "LIB" and ci.libname in SCALAR_LIB and not any(kw.arg == "axis" for kw in val.keywords):
@@ -572,6 +579,14 @@ def _value_kind(eng, fi, cfg, at, val, vec_positions):
         if val.attr in ("nf", "nx", "delta", "rho", "rhoend", "rhobeg"):
             return "scalar"
         return None
+    if isinstance(val, (ast.Name, ast.Subscript)):
+        from .common import tuple_position_from_call
+        try:
+            got = tuple_position_from_call(eng, cfg, at, val, {"model.Model.get_final_results"})
+        except Exception:
+            got = None
+        if got is not None:
+            return "vector" if got[0] in vec_positions else "scalar"
     if isinstance(val, ast.Name):
         if val.id in fi.all_params:
             return "scalar"
@@ -586,6 +601,9 @@ def _value_kind(eng, fi, cfg, at, val, vec_positions):
                     if val.id in names:
                         kinds.add("vector" if names.index(val.id) in vec_positions else "scalar")
                         continue
+            if isinstance(st, ast.Assign) and len(st.targets) == 1 and isinstance(st.targets[0], ast.Name) and st.targets[0].id == val.id:
+                kinds.add(_value_kind(eng, fi, cfg, st, st.value, vec_positions))
+                continue
             kinds.add(None)
         if len(kinds) == 1:
             return kinds.pop()
